@@ -510,10 +510,14 @@ func (ex *Exec) enterLoop(st *State, fc *FnCtx, li *loopInfo, pred *ssa.BasicBlo
 		}
 		return out
 	}
+	lms, lcells := ex.loopEffect(fc, li)
 	if lc, open := st.open[li.head]; open {
 		// back edge: preservation
+		for _, f := range ex.frameInvariant(st, fc, lms) {
+			ex.goal(st, "frame", fmt.Sprintf("%s#loop%d.frame.preserve", fc.prefix, li.ord), f, props, "", "declared frame holds after each iteration", ct.Modifies[0])
+		}
 		for k, cl := range invs {
-			ex.goal(st, "inv", fmt.Sprintf("%s#loop%d.inv%d.preserve", fc.prefix, li.ord, k+1), evalInv(cl), ct.clauseProps(cl), fmt.Sprintf("%s:%d", cl.File, cl.Line), cl.Text, cl)
+			ex.goal(st, "inv", fmt.Sprintf("%s#loop%d.inv%s.preserve", fc.prefix, li.ord, invName(cl, k)), evalInv(cl), ct.clauseProps(cl), fmt.Sprintf("%s:%d", cl.File, cl.Line), cl.Text, cl)
 		}
 		if len(decs) > 0 {
 			now := evalDec()
@@ -523,9 +527,15 @@ func (ex *Exec) enterLoop(st *State, fc *FnCtx, li *loopInfo, pred *ssa.BasicBlo
 	}
 	// first arrival: establish
 	for k, cl := range invs {
-		ex.goal(st, "inv", fmt.Sprintf("%s#loop%d.inv%d.init", fc.prefix, li.ord, k+1), evalInv(cl), ct.clauseProps(cl), fmt.Sprintf("%s:%d", cl.File, cl.Line), cl.Text, cl)
+		ex.goal(st, "inv", fmt.Sprintf("%s#loop%d.inv%s.init", fc.prefix, li.ord, invName(cl, k)), evalInv(cl), ct.clauseProps(cl), fmt.Sprintf("%s:%d", cl.File, cl.Line), cl.Text, cl)
 	}
-	ex.havocLoop(st, fc, li)
+	for _, f := range ex.frameInvariant(st, fc, lms) {
+		ex.goal(st, "frame", fmt.Sprintf("%s#loop%d.frame.init", fc.prefix, li.ord), f, props, "", "declared frame holds on loop entry", ct.Modifies[0])
+	}
+	ex.havocLoop(st, fc, li, lms, lcells)
+	for _, f := range ex.frameInvariant(st, fc, lms) {
+		st.assume(f)
+	}
 	env = ex.specEnvAt(st, fc)
 	for _, cl := range invs {
 		st.assume(evalInv(cl))
@@ -545,6 +555,13 @@ func (ex *Exec) enterLoop(st *State, fc *FnCtx, li *loopInfo, pred *ssa.BasicBlo
 		ex.cover(st, fmt.Sprintf("%s#loop%d.cover", fc.prefix, li.ord), tTrue, props, "loop invariants satisfiable")
 	}
 	return true
+}
+
+func invName(cl *Clause, k int) string {
+	if cl.Label != "" {
+		return "(" + cl.Label + ")"
+	}
+	return fmt.Sprintf("%d", k+1)
 }
 
 // toMeasure widens a variant component to a signed 128-bit value.
@@ -601,8 +618,8 @@ func splitTop(s string) []string {
 	return out
 }
 
-// havocLoop forgets everything the loop body may modify.
-func (ex *Exec) havocLoop(st *State, fc *FnCtx, li *loopInfo) {
+// loopEffect: components and private cells the loop body may modify.
+func (ex *Exec) loopEffect(fc *FnCtx, li *loopInfo) (*ModSet, map[*ssa.Alloc]bool) {
 	ms := newModSet()
 	cells := map[*ssa.Alloc]bool{}
 	for b := range li.body {
@@ -612,16 +629,67 @@ func (ex *Exec) havocLoop(st *State, fc *FnCtx, li *loopInfo) {
 				if a := rootAlloc(x.Addr); a != nil && isPrivateAlloc(a) {
 					cells[a] = true
 				} else {
-					ex.prog.storeEffect(ms, x.Addr)
+					// an allocation inside the loop body is fresh relative to the loop entry
+					ms.curFresh = freshRoot(x.Addr) && allocInLoop(x.Addr, li)
+					ex.prog.storeEffect(ms, normalizeAddr(x.Addr))
+					ms.curFresh = false
 				}
 			case *ssa.MapUpdate:
 				mt := x.Map.Type().Underlying().(*types.Map)
+				mm, isMk := x.Map.(*ssa.MakeMap)
+				ms.curFresh = isMk && li.body[mm.Block()]
 				ms.addMap(mt)
+				ms.curFresh = false
 			case ssa.CallInstruction:
 				ex.prog.callEffect(ex.cs, ms, x.Common(), fc.fn)
 			}
 		}
 	}
+	return ms, cells
+}
+
+// frameInvariant: for every component of ms that differs from the entry heap,
+// locations allocated at function entry and not declared in the contract's
+// modifies clauses still hold their entry contents.
+func (ex *Exec) frameInvariant(st *State, fc *FnCtx, ms *ModSet) []Term {
+	if !fc.top || fc.ct == nil || len(fc.ct.Modifies) == 0 || st.entry == nil || ms.all {
+		return nil
+	}
+	if st.entry.modRefs == nil {
+		entryEnv := &SpecEnv{ex: ex, st: st, heap: st.entry.heap, names: fc.names, pkg: fnPkg(fc.fn), alloc: st.entry.alloc}
+		refs, extra := ex.modifiedRefs(entryEnv, fc.ct)
+		if extra.all {
+			return nil
+		}
+		st.entry.modRefs = refs
+	}
+	var out []Term
+	for _, c := range ms.sorted() {
+		cur, ok := st.heap.m[c]
+		if !ok {
+			continue
+		}
+		old, ok2 := st.entry.heap.m[c]
+		if !ok2 {
+			old = ex.comp(st.entry.heap, c, ex.compValSort(ms.comps[c]))
+		}
+		if old.S == cur.S {
+			continue
+		}
+		ex.counter++
+		r := Term{fmt.Sprintf("fr_%d", ex.counter), sInt}
+		guard := []Term{mk(sBool, "<=", r, st.entry.alloc)}
+		for _, lr := range st.entry.modRefs[c] {
+			guard = append(guard, not(eq(r, lr)))
+		}
+		out = append(out, Term{fmt.Sprintf("(forall ((%s Int)) (! (=> %s (= (select %s %s) (select %s %s))) :pattern ((select %s %s))))",
+			r.S, and(guard...).S, cur.S, r.S, old.S, r.S, cur.S, r.S), sBool})
+	}
+	return out
+}
+
+// havocLoop forgets everything the loop body may modify.
+func (ex *Exec) havocLoop(st *State, fc *FnCtx, li *loopInfo, ms *ModSet, cells map[*ssa.Alloc]bool) {
 	for a := range cells {
 		if c, ok := st.cellOf[a]; ok {
 			v := ex.fresh("lv_"+sanitize(a.Comment), ex.u.sortOf(c.typ))
@@ -640,12 +708,22 @@ func (ex *Exec) applyModSet(st *State, ms *ModSet, only map[string][]Term) {
 		ex.havocHeap(st)
 		return
 	}
+	fresh := newModSet()
 	for _, c := range ms.sorted() {
 		ci := ms.comps[c]
+		if !ms.nonfresh[c] {
+			fresh.comps[c] = ci
+			continue
+		}
 		vs := ex.compValSort(ci)
 		nv := ex.fresh("hv", arraySort(sInt, vs))
 		ex.compSorts[c] = vs
 		st.heap.m[c] = nv
+	}
+	if len(fresh.comps) > 0 {
+		// written only at objects allocated by the callee / loop itself:
+		// everything allocated before keeps its contents
+		ex.applyFramed(st, fresh, nil, st.alloc)
 	}
 }
 
@@ -668,6 +746,26 @@ func (ex *Exec) compValSort(ci compInfo) string {
 		return ex.cs.Ghost[ci.name]
 	}
 	panic("compValSort")
+}
+
+// allocInLoop: the root allocation of an address chain lies inside the loop body.
+func allocInLoop(v ssa.Value, li *loopInfo) bool {
+	for {
+		switch x := v.(type) {
+		case *ssa.Alloc:
+			return li.body[x.Block()]
+		case *ssa.MakeSlice:
+			return li.body[x.Block()]
+		case *ssa.FieldAddr:
+			v = x.X
+		case *ssa.IndexAddr:
+			v = x.X
+		case *ssa.Slice:
+			v = x.X
+		default:
+			return false
+		}
+	}
 }
 
 func rootAlloc(v ssa.Value) *ssa.Alloc {
@@ -712,6 +810,9 @@ func (ex *Exec) specEnvAt(st *State, fc *FnCtx) *SpecEnv {
 		}
 	}
 	env.locals = func(name string) (tv, bool) {
+		if name == "ridx" {
+			name = "rangeindex"
+		}
 		// latest cell with that source name in this function
 		var best *Cell
 		for a, c := range st.cellOf {
